@@ -482,6 +482,8 @@ class BatStream(Stream):
         lb.append("all_ok" if nf == 0 else "all_failed" if nf == n else "mixed")
         for o in sorted(set(case["out"])):
             lb.append("outcome=" + ["ok", "out_of_range", "client_error", "other_exception", "timeout", "slow_ok"][o])
+        if 5 in case["out"] and any(o in (1, 2, 3) for o in case["out"]):
+            lb.append("an_error_replies_before_a_success")
         if qsum(p for _, p in case["dist"]) + fr(case["rem"]) == fr(case["req"]):
             lb.append("c01_identity_holds")
         else:
@@ -533,6 +535,8 @@ class PVStream(Stream):
         out = [{"what": w, "finding": None} for w in judge(obs, req, case["out"], lambda i: [i])]
         if obs.get("n_results", 0) > 1:
             out.append({"what": f"result: {obs['n_results']} results sent for one request", "finding": None})
+        if obs["kind"] == "none" and case["tracker"] and any(b is not None for _, b in case["working"]):
+            out.append({"what": "result: no Result was sent although usable PV inverters were addressed", "finding": None})
         if obs["kind"] in ("Success", "PartialFailure"):
             calls = obs["calls"]
             bounds = {i: b for i, b in case["working"]}
@@ -568,6 +572,8 @@ class PVStream(Stream):
             lb.append("all_ok" if nf == 0 else "all_failed" if nf == n else "mixed")
             for o in sorted(set(outs)):
                 lb.append("outcome=" + ["ok", "out_of_range", "client_error", "other_exception", "timeout", "slow_ok"][o])
+            if 5 in outs and any(o in (1, 2, 3) for o in outs):
+                lb.append("an_error_replies_before_a_success")
             if "excess" in obs:
                 lb.append("nonzero_excess" if fr(obs["excess"]) != 0 else "zero_excess")
             bs = [tuple(b) for _, b in case["working"] if b is not None]
@@ -617,3 +623,306 @@ class BatAlgStream(BatStream):
             dist = [[int(i), jq(v)] for i, v in res.distribution.items()]
             yield {"req": jq(fr(dc["power"])), "dist": dist, "rem": jq(res.remaining_power), "map": m,
                    "out": gen_out(rng, len(dist)), "origin": "BatteryDistributionAlgorithm"}
+
+
+# ============================================================================= concurrent requests on ONE manager
+# PowerDistributingActor runs requests for different component sets concurrently on the same manager
+# instance.  Each Result must be a function of ITS OWN request and the outcomes of ITS OWN calls: no state
+# may leak between requests in flight.  2-3 requests for disjoint component subsets are started
+# `start` quarter-seconds apart by asyncio.gather on one `__new__`-built manager; every set_power call
+# follows the script of its component id: (outcome 0..4, latency in quarter seconds of virtual time).
+class FakeApiById:
+    def __init__(self, script, I):
+        self.script, self.I, self.calls = script, I, []
+
+    async def set_power(self, component_id, power):
+        self.calls.append((component_id, power))
+        o, lat = self.script.get(component_id, (0, 0))
+        if o == 4:
+            await asyncio.Event().wait()
+        if lat:
+            await asyncio.sleep(lat / 4.0)
+        if o == 1:
+            raise self.I.OperationOutOfRange(server_url="fake", operation="set_power", grpc_error=_GrpcErr())
+        if o == 2:
+            raise self.I.ApiClientError(server_url="fake", operation="set_power", description="scripted", retryable=False)
+        if o == 3:
+            raise RuntimeError("scripted unexpected exception")
+
+
+class ConcTracker(FakeTracker):
+    def get_working_components(self, ids):
+        return [i for i in self.working if i in ids]
+
+
+def _gather(jobs, starts):
+    """run the coroutine factories concurrently on one virtual-time loop; job j starts after starts[j]/4 s"""
+    import async_solipsism
+    loop = async_solipsism.EventLoop()
+
+    async def one(job, start):
+        await asyncio.sleep(start / 4.0)
+        t0 = loop.time()
+        try:
+            r = ("ok", await job())
+        except Exception as exc:  # noqa: BLE001
+            r = ("raise", type(exc).__name__)
+        return r, t0, loop.time()
+
+    async def main():
+        return await asyncio.gather(*[one(j, s) for j, s in zip(jobs, starts)])
+    try:
+        asyncio.set_event_loop(loop)
+        return loop.run_until_complete(main())
+    finally:
+        asyncio.set_event_loop(None)
+        loop.close()
+
+
+def _overlap(spans):
+    return any(a[0] <= b[1] and b[0] <= a[1] for a, b in itertools.combinations(spans, 2))
+
+
+def run_conc_pv(case) -> dict:
+    I = _imports()
+    reqs = case["reqs"]
+    script = {cid: (o, lat) for r in reqs for cid, o, lat in r["script"]}
+    api = FakeApiById(script, I)
+    I.cm._CONNECTION_MANAGER = SimpleNamespace(api_client=api, component_graph=None)
+    pv = I.PVManager.__new__(I.PVManager)
+    pv._results_sender = FakeSender()
+    pv._api_power_request_timeout = timedelta(seconds=TIMEOUT_S)
+    pv._pv_inverter_ids = {i for r in reqs for i, _ in r["working"]}
+    pv._component_pool_status_tracker = ConcTracker([i for r in reqs for i, _ in r["working"]])
+    pv._component_data_caches = {i: FakeCache(None if b is None else X(fr(b))) for r in reqs for i, b in r["working"]}
+    pv._target_power = I.Power.zero()
+    requests = [I.Request(power=I.Power.from_watts(X(fr(r["req"]))), component_ids=set(r["ids"])) for r in reqs]
+    done = _gather([(lambda q=q: pv.distribute_power(q)) for q in requests], [r["start"] for r in reqs])
+    msgs = pv._results_sender.msgs
+    out = []
+    for r, q, ((st, res), t0, t1) in zip(reqs, requests, done):
+        calls = [[c, jq(p)] for c, p in api.calls if c in r["ids"]]
+        mine = [m for m in msgs if getattr(m, "request", None) is q]
+        if st == "raise":
+            o = {"kind": "raise:" + res}
+        elif not mine:
+            o = {"kind": "none"}
+        else:
+            o = obs_of_result(mine[0], I, q)
+        o.update({"calls": calls, "n_results": len(mine), "span": [jq(Fraction(t0).limit_denominator(1000)), jq(Fraction(t1).limit_denominator(1000))]})
+        out.append(o)
+    known = {i for r in reqs for i in r["ids"]}
+    return {"reqs": out, "stray_results": sum(1 for m in msgs if not any(getattr(m, "request", None) is q for q in requests)),
+            "stray_calls": sorted(c for c, _ in api.calls if c not in known),
+            "overlap": _overlap([(fr(o["span"][0]), fr(o["span"][1])) for o in out])}
+
+
+def run_conc_bat(case) -> dict:
+    I = _imports()
+    reqs = case["reqs"]
+    script = {cid: (o, lat) for r in reqs for cid, o, lat in r["script"]}
+    api = FakeApiById(script, I)
+    I.cm._CONNECTION_MANAGER = SimpleNamespace(api_client=api, component_graph=None)
+    bm = I.BatteryManager.__new__(I.BatteryManager)
+    bm._inv_bats_map = {inv: frozenset(bats) for r in reqs for inv, bats in r["map"]}
+    bm._api_power_request_timeout = timedelta(seconds=TIMEOUT_S)
+    bm._component_pool_status_tracker = FakeTracker()
+    requests, dists = [], []
+    for r in reqs:
+        requests.append(I.Request(power=I.Power.from_watts(X(fr(r["req"]))),
+                                  component_ids=set(itertools.chain.from_iterable(b for _, b in r["map"]))))
+        dists.append(I.DistributionResult({inv: X(fr(p)) for inv, p in r["dist"]}, X(fr(r["rem"]))))
+    done = _gather([(lambda q=q, d=d: bm._distribute_power(q, d)) for q, d in zip(requests, dists)], [r["start"] for r in reqs])
+    updates = list(bm._component_pool_status_tracker.updates)
+    out = []
+    for r, q, ((st, res), t0, t1) in zip(reqs, requests, done):
+        invs = {inv for inv, _ in r["dist"]}
+        bats = set(itertools.chain.from_iterable(b for i, b in r["map"] if i in invs))
+        calls = [[c, jq(p)] for c, p in api.calls if c in invs]
+        if st == "raise":
+            o = {"kind": "raise:" + res}
+        else:
+            o = obs_of_result(res, I, q)
+            o["updates"] = [u for u in updates if bats and set(u[0]) | set(u[1]) == bats]
+        o.update({"calls": calls, "span": [jq(Fraction(t0).limit_denominator(1000)), jq(Fraction(t1).limit_denominator(1000))]})
+        out.append(o)
+    known = {inv for r in reqs for inv, _ in r["dist"]}
+    return {"reqs": out, "n_updates": len(updates), "stray_calls": sorted(c for c, _ in api.calls if c not in known),
+            "overlap": _overlap([(fr(o["span"][0]), fr(o["span"][1])) for o in out])}
+
+
+LAT_PROFILES = ["error_before_success", "success_before_error", "random", "instant"]
+
+
+def gen_script(rng, ids, profile):
+    """[[id, outcome 0..4, latency in quarter seconds (<= 12, the timeout is 20)]]"""
+    r = rng.random()
+    outs = ([0] * len(ids) if r < 0.15 else [rng.choice([1, 2, 3, 4]) for _ in ids] if r < 0.25
+            else [rng.choice([0, 0, 0, 1, 2, 3, 4]) for _ in ids])
+    if profile in ("error_before_success", "success_before_error") and len(ids) > 1 and rng.random() < 0.7:
+        a, b = rng.sample(range(len(ids)), 2)       # make sure both kinds of reply occur in this request
+        outs[a], outs[b] = 0, rng.choice([1, 2, 3])
+    sc = []
+    for i, o in zip(ids, outs):
+        if profile == "instant":
+            lat = 0
+        elif profile == "random":
+            lat = rng.choice([0, 0, 1, 2, 4, 8, 12])
+        elif profile == "error_before_success":
+            lat = rng.choice([4, 6, 8, 12]) if o == 0 else rng.choice([0, 1])
+        else:
+            lat = rng.choice([0, 1]) if o == 0 else rng.choice([4, 6, 8, 12])
+        sc.append([i, o, lat])
+    return sc
+
+
+def _sub_out(sub, calls):
+    """outcome of every recorded call of this request, in call order"""
+    sc = {i: o for i, o, _ in sub["script"]}
+    return [sc.get(c, 0) for c, _ in calls]
+
+
+def _profile_labels(case, obs):
+    lb = [f"requests={len(case['reqs'])}", "in_flight_together" if obs["overlap"] else "not_overlapping"]
+    for r in case["reqs"]:
+        lb.append("latency=" + r.get("profile", "?"))
+        oks = [lat for _, o, lat in r["script"] if o == 0]
+        errs = [lat for _, o, lat in r["script"] if o in (1, 2, 3)]
+        if oks and errs and min(errs) < max(oks):
+            lb.append("an_error_replies_before_a_success")
+        if oks and errs and min(oks) < max(errs):
+            lb.append("a_success_replies_before_an_error")
+    powers = {tuple(r["req"]) for r in case["reqs"]}
+    lb.append("different_powers" if len(powers) > 1 else "same_power")
+    for o in obs["reqs"]:
+        lb.append("kind=" + o["kind"])
+    return sorted(set(lb))
+
+
+def _shrink_conc(case):
+    rs = case["reqs"]
+    if len(rs) > 2:
+        for i in range(len(rs)):
+            yield {**case, "reqs": rs[:i] + rs[i + 1:]}
+    for i, r in enumerate(rs):
+        if any(lat or o for _, o, lat in r["script"]):
+            yield {**case, "reqs": rs[:i] + [{**r, "script": [[c, 0, 0] for c, _, _ in r["script"]]}] + rs[i + 1:]}
+        if any(lat for _, _, lat in r["script"]):
+            yield {**case, "reqs": rs[:i] + [{**r, "script": [[c, o, 0] for c, o, _ in r["script"]]}] + rs[i + 1:]}
+        if r["start"]:
+            yield {**case, "reqs": rs[:i] + [{**r, "start": 0}] + rs[i + 1:]}
+
+
+class ConcPVStream(Stream):
+    name = "conc_pv"
+    coq_header = (PV_HEADER.replace("Definition check ", "Definition check1 ") +
+                  "Definition check (cs : list (pv_in * result * list (Z * Q))) : bool := forallb check1 cs.\n")
+    _single = PVStream()
+
+    def gen(self, rng, tier):
+        # two requests, different powers, the second arrives while the first waits for its replies
+        yield {"reqs": [
+            {"req": [-600, 1], "ids": [8, 28], "working": [[8, [-500, 1]], [28, [-500, 1]]], "script": [[8, 0, 4], [28, 0, 4]], "start": 0, "profile": "random"},
+            {"req": [-3000, 1], "ids": [9], "working": [[9, [-5000, 1]]], "script": [[9, 0, 0]], "start": 1, "profile": "random"}]}
+        for _ in range(350 if tier == "quick" else 5000):
+            reqs = []
+            for j in range(rng.choice([2, 2, 3])):
+                base = gen_pv_base(rng, rng.choice([1, 2, 2, 3]))
+                off = 100 * (j + 1)
+                working = [[i + off, b] for i, b in base["working"]]
+                prof = rng.choice(LAT_PROFILES)
+                reqs.append({"req": base["req"], "ids": sorted(i + off for i in base["ids"]), "working": working,
+                             "script": gen_script(rng, [i for i, _ in working], prof), "start": rng.choice([0, 0, 1, 2]),
+                             "profile": prof})
+            yield {"reqs": reqs}
+
+    def run_impl(self, case):
+        return run_conc_pv(case)
+
+    def _subs(self, case, obs):
+        for r, o in zip(case["reqs"], obs["reqs"]):
+            yield {"req": r["req"], "ids": r["ids"], "tracker": True, "working": r["working"], "out": _sub_out(r, o["calls"])}, o
+
+    def to_coq(self, case, obs):
+        terms = [self._single.to_coq(sub, o) for sub, o in self._subs(case, obs)]
+        return "[" + "; ".join(terms) + "]"
+
+    def show_term(self, case, obs):
+        return "[" + "; ".join(self._single.show_term(sub, o) for sub, o in self._subs(case, obs)) + "]"
+
+    def oracle(self, case, obs):
+        out = []
+        for j, (sub, o) in enumerate(self._subs(case, obs)):
+            for v in self._single.oracle(sub, o):
+                out.append({"what": v["what"].split(":")[0] + f": request {j} ({fr(sub['req'])} W to {sub['ids']}), judged against its own request: " + v["what"].split(":", 1)[1].strip(), "finding": None})
+            if o["kind"].startswith("raise"):
+                out.append({"what": f"result: request {j} raised {o['kind']}", "finding": None})
+        if obs["stray_results"]:
+            out.append({"what": f"result: {obs['stray_results']} results that answer none of the requests in flight", "finding": None})
+        if obs["stray_calls"]:
+            out.append({"what": f"calls: set_power calls to components of no request: {obs['stray_calls']}", "finding": None})
+        return out
+
+    def key(self, case, obs):
+        if not any(o["calls"] for o in obs["reqs"]):
+            return None
+        return json.dumps([[r["req"], r["working"], r["script"], r["start"]] for r in case["reqs"]])
+
+    def labels(self, case, obs):
+        return _profile_labels(case, obs)
+
+    def shrink(self, case):
+        return _shrink_conc(case)
+
+
+class ConcBatStream(Stream):
+    name = "conc_battery"
+    coq_header = (BAT_HEADER.replace("Definition check ", "Definition check1 ") +
+                  "Definition check (cs : list (bat_in * result * list (Z * Q) * list (list Z * list Z))) : bool := forallb check1 cs.\n")
+    _single = BatStream()
+
+    def gen(self, rng, tier):
+        for _ in range(350 if tier == "quick" else 5000):
+            reqs = []
+            for j in range(rng.choice([2, 2, 3])):
+                n = rng.choice([1, 2, 2, 3])
+                base = gen_bat_base(rng, n, identity=rng.random() < 0.9)
+                off = 1000 * (j + 1)
+                prof = rng.choice(LAT_PROFILES)
+                dist = [[i + off, p] for i, p in base["dist"]]
+                reqs.append({"req": base["req"], "rem": base["rem"], "dist": dist,
+                             "map": [[i + off, [b + off for b in bs]] for i, bs in base["map"]],
+                             "script": gen_script(rng, [i for i, _ in dist], prof), "start": rng.choice([0, 0, 1, 2]), "profile": prof})
+            yield {"reqs": reqs}
+
+    def run_impl(self, case):
+        return run_conc_bat(case)
+
+    def _subs(self, case, obs):
+        for r, o in zip(case["reqs"], obs["reqs"]):
+            sc = {i: oc for i, oc, _ in r["script"]}
+            yield {"req": r["req"], "rem": r["rem"], "dist": r["dist"], "map": r["map"], "out": [sc.get(i, 0) for i, _ in r["dist"]]}, o
+
+    def to_coq(self, case, obs):
+        return "[" + "; ".join(self._single.to_coq(sub, o) for sub, o in self._subs(case, obs)) + "]"
+
+    def show_term(self, case, obs):
+        return "[" + "; ".join(self._single.show_term(sub, o) for sub, o in self._subs(case, obs)) + "]"
+
+    def oracle(self, case, obs):
+        out = []
+        for j, (sub, o) in enumerate(self._subs(case, obs)):
+            for v in self._single.oracle(sub, o):
+                out.append({"what": v["what"].split(":")[0] + f": request {j} ({fr(sub['req'])} W), judged against its own request: " + v["what"].split(":", 1)[1].strip(), "finding": None})
+        if obs["stray_calls"]:
+            out.append({"what": f"calls: set_power calls to inverters of no request: {obs['stray_calls']}", "finding": None})
+        return out
+
+    def key(self, case, obs):
+        return json.dumps([[r["req"], r["dist"], r["rem"], r["map"], r["script"], r["start"]] for r in case["reqs"]])
+
+    def labels(self, case, obs):
+        return _profile_labels(case, obs)
+
+    def shrink(self, case):
+        return _shrink_conc(case)
